@@ -604,12 +604,20 @@ type simWriter struct {
 	log     []string
 	failedCall int
 	transient  bool // only one Write fails (EAGAIN-like); later Writes succeed again
+	maxChunk   int  // > 0: accepts at most that many bytes per Write and reports no error (the encoder's write loop retries the rest)
 }
 
 func (w *simWriter) Write(p []byte) (int, error) {
 	w.calls++
 	if w.failed && !w.transient {
 		return 0, w.err
+	}
+	if w.maxChunk > 0 && len(p) > w.maxChunk {
+		w.got = append(w.got, p[:w.maxChunk]...)
+		if len(w.log) < 32 {
+			w.log = append(w.log, fmt.Sprintf("%d of %d", w.maxChunk, len(p)))
+		}
+		return w.maxChunk, nil
 	}
 	if w.failAt >= 0 && !w.failed && len(w.got)+len(p) > w.failAt {
 		k := w.failAt - len(w.got)
@@ -766,6 +774,12 @@ func runC17Enc(c *Ctx) Result {
 			w.failAt = t.Draw(simrt.Faults, total)
 		}
 		w.transient = t.Draw(simrt.Faults, 2) == 1
+	}
+	if !faults && !indent && !switching && t.Draw(simrt.Faults, 4) == 0 {
+		// a Writer that takes only part of what it is offered without reporting an error: the
+		// non-indenting path writes in a loop until everything is delivered
+		w.maxChunk = 1 + t.Draw(simrt.Faults, 16)
+		c.inc("fault_writer_partial_writes_without_error")
 	}
 	var enc sonic.Encoder
 	if viaConfig {
